@@ -11,6 +11,7 @@ function, which reports what each parameter received.  Per bound parameter the d
 from __future__ import annotations
 
 import dataclasses
+import functools
 import logging
 import random
 from typing import Any, Dict, List, Optional, Tuple
@@ -39,6 +40,17 @@ class PData:
     x: int
     y: List[int]
 
+    def __post_init__(self) -> None:
+        self._checked = True            # state that is not a field: not part of the dict form
+
+    @functools.cached_property
+    def total(self) -> int:             # once read, the value sits in the instance __dict__ (not a field either)
+        return self.x + sum(self.y)
+
+
+class PlainThing:
+    """A plain class: pydantic cannot build a validator for it, so a value for a parameter annotated with it stays as sent."""
+
 
 # two DIFFERENT classes with the same module and qualified name (class factories produce these)
 DupA = pydantic.create_model("Dup", value=(int, ...))
@@ -47,10 +59,11 @@ DupA.__module__ = DupB.__module__ = __name__
 
 from typing import Union as _Union
 
-TYPES: Dict[str, Any] = {"dupa": DupA, "dupb": DupB, "num": _Union[bool, int, float],"int": int, "float": float, "str": str, "bool": bool, "listint": List[int], "model": PModel, "dc": PData,
+TYPES: Dict[str, Any] = {"plain": PlainThing, "dupa": DupA, "dupb": DupB, "num": _Union[bool, int, float],"int": int, "float": float, "str": str, "bool": bool, "listint": List[int], "model": PModel, "dc": PData,
                          "optint": Optional[int]}
 # (convertible-and-changing value, not convertible value, native value)
 VALUES: Dict[str, Tuple[Any, Any, Any]] = {
+    "plain": ({"k": 1}, "text", [1, 2]),            # nothing converts to a plain class: every value arrives as sent
     "num": (1.0, "x", 1),
     "dupa": ({"value": "7"}, {"value": "x"}, {"value": 7}), "dupb": ({"value": "7"}, {"value": [1]}, {"value": "s"}),
     "int": ("5", "five", 5), "float": ("1.5", "x", 2.5), "str": (b"bytes".decode(), [1], "s"), "bool": ("true", "maybe", True),
@@ -85,7 +98,10 @@ def value_for(vc: str, ty: str, an: str, rng: random.Random) -> Any:
     if vc == "model":
         return PModel(a=rng.randint(1, 9), b="x") if rng.random() < 0.5 else PModel(a=rng.randint(1, 9))   # b left unset
     if vc == "dc":
-        return PData(x=rng.randint(1, 9), y=[1, 2])
+        d = PData(x=rng.randint(1, 9), y=[1, 2])
+        if rng.random() < 0.5:
+            _ = d.total                 # the caller looked at the cached property before sending
+        return d
     if an != "T":
         return rng.choice(JSON_POOL)
     conv, nconv, native = VALUES[ty]
@@ -274,6 +290,23 @@ def run(case: Dict[str, Any]) -> Dict[str, Any]:
             receiver = _receiver_from_api(broker, case, loop)
         else:
             receiver = receiver_early or Receiver(broker, executor=InlineExecutor(), validate_params=case.get("parse", True), run_startup=False)
+        if case.get("seed", 0) % 4 == 2:
+            # an earlier message of the same task on the same worker whose annotated arguments could not be converted:
+            # conversion of later messages is not affected by it
+            pa, pk = [], {}
+            for c in case["call"]:
+                p = sig[c["p"] - 1]
+                bad = VALUES[p.get("ty", "int")][1] if p["an"] == "T" else sent[c["p"]]
+                if c["how"] == "pos":
+                    pa.append(bad)
+                else:
+                    pk[f"p{c['p']}"] = bad
+            try:
+                loop.run_coro(task.kiq(*pa, **pk))
+                loop.run_coro(receiver.callback(broker.sent[-1].message))
+            except Exception:  # noqa: BLE001
+                pass
+            got.clear()
         loop.run_coro(receiver.callback(bm.message))
         obs = []
         from taskiq.kicker import AsyncKicker
